@@ -273,33 +273,36 @@ def interpret_static(tab, s, k, c):
     return (st['err_ret'], (), (err,))
 
 
+def _shape_ok(tab):
+    """Did the line-regex extraction find the generated shape (42 states, every alternative with a target, expected lists)?"""
+    st = tab['states']
+    return (len(st) == 42 and sum(len(x['alts']) for x in st.values()) == 334 and
+            all(a['to'] is not None for x in st.values() for a in x['alts']) and
+            all(x['expected'] and x['err_ret'] is not None for x in st.values()) and len(tab['lookaheads']) == 2 and
+            all(len(v) >= 4 for v in tab['lookaheads'].values()))
+
+
+def _same_events(got, want):
+    """events of the running parser vs events read from a sibling's text (JavaScript's endRule carries no rule name)."""
+    return len(got) == len(want) and all(g[0] == w[0] and (g[1] == w[1] or w[1] is None) for g, w in zip(got, want))
+
+
 def siblings(acc):
     tabs = {l: TB.static_table(l) for l in TB.FILES}
     py = tabs['python']
     n_alt = {l: sum(len(s['alts']) for s in t['states'].values()) for l, t in tabs.items()}
     acc.counters['programs'] = len(tabs)
-    # text of parser.py == behaviour of parser.py
-    for (s, k, c), v in sorted(T.items()):
-        if s not in py['states']:
-            acc.violation('static-vs-dynamic', {'kind': 'table-entry', 'state': s, 'on': k, 'class': c}, 'state missing in parser.py text')
-            continue
-        try:
-            w = interpret_static(py, s, k, c)
-        except Exception as e:  # noqa: BLE001
-            acc.violation('static-table-shape', {'kind': 'table-entry', 'state': s, 'on': k, 'class': c},
-                          'parser.py no longer has the shape of the generated parsers in state %d (%s: %s): its text cannot be compared with its siblings' % (s, type(e).__name__, e))
-            continue
-        acc.n += 1
-        if w != v:
-            acc.violation('static-vs-dynamic', {'kind': 'table-entry', 'state': s, 'on': k, 'class': c},
-                          'text of parser.py and running parser disagree', observed=v, expected=w)
-    # bisimulation with each sibling from (0, 0)
+    py_text_ok = _shape_ok(py)
+    acc.counters['python_text_in_generated_shape'] = int(py_text_ok)
+    # 1. every sibling against the BEHAVIOUR of the running Python parser (the extracted table), bisimulation from (0, 0)
     for l, t in tabs.items():
         if l == 'python':
             continue
         case0 = {'kind': 'sibling', 'lang': l}
-        if t['lookaheads'] != py['lookaheads']:
-            acc.violation('sibling-lookahead', case0, 'look-ahead definitions differ', observed=py['lookaheads'], expected=t['lookaheads'])
+        if not _shape_ok({'states': t['states'], 'lookaheads': t['lookaheads']}) and l not in ('c',):
+            # C prints its expected list in another form; the others must be in the generated shape or our reader is wrong
+            if len(t['states']) != 42 or n_alt[l] != 334:
+                raise core.InternalError('cannot read the generated parser of %s (%d states, %d alternatives)' % (l, len(t['states']), n_alt[l]))
         pair = {0: 0}
         todo = [0]
         visited = 0
@@ -307,36 +310,68 @@ def siblings(acc):
             a = todo.pop()
             b = pair[a]
             visited += 1
-            sa, sb = py['states'].get(a), t['states'].get(b)
-            case = {'kind': 'sibling', 'lang': l, 'python_state': a, 'sibling_state': b}
-            if sa is None or sb is None:
-                if a != TB.FINAL or b != TB.FINAL:
-                    acc.violation('sibling-table', case, 'state missing')
+            if a == TB.FINAL or b == TB.FINAL:
+                if a != b:
+                    acc.violation('sibling-table', dict(case0, python_state=a, sibling_state=b), 'final state reached on one side only')
                 continue
-            if len(sa['alts']) != len(sb['alts']):
-                acc.violation('sibling-table', case, 'different number of alternatives', observed=sa['alts'], expected=sb['alts'])
-                continue
-            for x, y in zip(sa['alts'], sb['alts']):
-                acc.n += 1
-                same_prods = len(x['prods']) == len(y['prods']) and all(
-                    p[0] == q[0] and (len(p) == 1 or p[1] == q[1] or q[1] is None) for p, q in zip(x['prods'], y['prods']))
-                if (x['tok'], x['la']) != (y['tok'], y['la']) or not same_prods:
-                    acc.violation('sibling-table', case, 'alternative differs', observed=x, expected=y)
-                    continue
-                if x['to'] in pair:
-                    if pair[x['to']] != y['to']:
-                        acc.violation('sibling-table', case, 'targets not bisimilar', observed=x, expected=y)
-                else:
-                    pair[x['to']] = y['to']
-                    todo.append(x['to'])
-            if sb['expected'] is not None and sa['expected'] != sb['expected']:
-                acc.violation('sibling-expected', case, 'expected-token list differs', observed=sa['expected'], expected=sb['expected'])
-            if sb['err_ret'] is not None and pair.get(sa['err_ret']) not in (None, sb['err_ret']):
-                acc.violation('sibling-table', case, 'error recovery target differs')
+            for k in ALL:
+                classes = 'SEN' if (a, k) in USES_LA else 'N'
+                for c in classes:
+                    acc.n += 1
+                    case = {'kind': 'sibling', 'lang': l, 'python_state': a, 'sibling_state': b, 'on': k, 'class': c}
+                    try:
+                        w = interpret_static(t, b, k, c)
+                    except Exception as e:  # noqa: BLE001
+                        raise core.InternalError('cannot interpret the %s table in state %d: %s' % (l, b, e))
+                    v = T[(a, k, c)]
+                    if v[0] is None:
+                        continue
+                    if bool(v[2]) != bool(w[2]):
+                        acc.violation('sibling-table', case, 'Python %s, %s %s' % ('reports an error' if v[2] else 'continues', l, 'reports an error' if w[2] else 'continues'),
+                                      observed=v, expected=w)
+                        continue
+                    if v[2]:
+                        if t['states'][b]['expected'] and v[2] != w[2]:
+                            acc.violation('sibling-expected', case, 'expected-token list / message differs from %s' % l, observed=v[2], expected=w[2])
+                        if pair.get(v[0], w[0]) != w[0]:
+                            acc.violation('sibling-table', case, 'error recovery target differs')
+                        continue
+                    if not _same_events(v[1], w[1]):
+                        acc.violation('sibling-table', case, 'productions differ from %s' % l, observed=v[1], expected=w[1])
+                        continue
+                    if v[0] in pair:
+                        if pair[v[0]] != w[0]:
+                            acc.violation('sibling-table', case, 'targets not bisimilar', observed=v[0], expected=w[0])
+                    else:
+                        pair[v[0]] = w[0]
+                        todo.append(v[0])
         acc.counters['bisim_states_' + l] = visited
         if visited < 42:
             acc.violation('sibling-table', case0, 'only %d states reachable in the product with %s' % (visited, l))
-    acc.notes_alts = n_alt
+    # 2. the TEXT of parser.py (when it still has the generated shape) says what the running parser does, and equals the siblings' text
+    if py_text_ok:
+        for (s, k, c), v in sorted(T.items()):
+            if v[0] is None:
+                continue
+            w = interpret_static(py, s, k, c)
+            acc.n += 1
+            if w != v:
+                acc.violation('static-vs-dynamic', {'kind': 'table-entry', 'state': s, 'on': k, 'class': c},
+                              'text of parser.py and running parser disagree', observed=v, expected=w)
+        for l, t in tabs.items():
+            if l == 'python':
+                continue
+            if t['lookaheads'] != py['lookaheads']:
+                acc.violation('sibling-lookahead', {'kind': 'sibling', 'lang': l}, 'look-ahead definitions differ', observed=py['lookaheads'], expected=t['lookaheads'])
+            for st_no in sorted(py['states']):
+                sa, sb = py['states'][st_no], t['states'].get(st_no)
+                if sb is None:
+                    continue
+                xs = [(x['tok'], x['la'], x['to']) for x in sa['alts']]
+                ys = [(y['tok'], y['la'], y['to']) for y in sb['alts']]
+                acc.n += 1
+                if xs != ys:
+                    acc.violation('sibling-text', {'kind': 'sibling', 'lang': l, 'python_state': st_no}, 'ordered alternatives differ in the text', observed=xs, expected=ys)
     return n_alt
 
 
